@@ -599,6 +599,16 @@ fn gen_c19(rng: &mut Rng, tier: &str, emit: Emit) {
 }
 
 fn gen_c11(rng: &mut Rng, tier: &str, emit: Emit) {
+    // Bit <-> bool / integer
+    for t in ["u8", "u16", "u32", "u64", "u128", "us"] {
+        for x in ["0", "1", "2", "80", "ff"] {
+            emit(line("bitconv", &[&format!("{}:{}", t, x)]));
+        }
+        for _ in 0..6 {
+            let w = match t { "u8" => 8, "u16" => 16, "u32" => 32, "u64" => 64, "u128" => 128, _ => 65 };
+            emit(line("bitconv", &[&gen_uint_w(rng, w)]));
+        }
+    }
     // exhaustive u8 (and u16 in the thorough tier) into every type; lattice for wider
     for ty in TYPES {
         for x in 0..=255u32 {
